@@ -8,9 +8,11 @@ import SquidModel.Properties.C51
 #print axioms SquidModel.C51.traversal_is_recency_order
 #print axioms SquidModel.C51.add_purges_least_recent
 #print axioms SquidModel.C51.setLimit_purges_least_recent
+#print axioms SquidModel.C51.purge_is_lru_loop
 #print axioms SquidModel.C51.get_after_add
 #print axioms SquidModel.C51.get_after_expiry
 #print axioms SquidModel.C51.rejected_add_discards
 #print axioms SquidModel.C51.memory_counted_exact
+#print axioms SquidModel.C51.accounting_constants_consistent
 #print axioms SquidModel.C51.expiry_saturation_invisible
 #print axioms SquidModel.C51.negative_clock_never_expires
